@@ -9,6 +9,7 @@ import (
 	"encoding/json"
 	"fmt"
 	"math"
+	"os"
 
 	"github.com/golang/geo/s1"
 	"github.com/golang/geo/s2"
@@ -19,6 +20,7 @@ import (
 func init() {
 	register("shape", opShape)
 	register("c06scene", opC06Scene)
+	register("c06lattice", opC06Lattice)
 }
 
 type c06ShapeCase struct {
@@ -281,6 +283,13 @@ func opShape(raw json.RawMessage, o *Out) {
 				lc.Kind = "LaxPolygon"
 				lc.Holes = make([]bool, len(c.Holes))
 				lc.Edges, lc.ChainEdges = c.LaxEdges, c.LaxChainEdges
+				for _, h := range c.Holes {
+					if h {
+						// observation only: the C++ original reverses the holes in this conversion
+						o.Count("observation_LaxPolygonFromPolygon_keeps_hole_vertex_order")
+						break
+					}
+				}
 				c06CheckShape(o, &lc, "/FromPolygon", s2.LaxPolygonFromPolygon(p), t)
 			}
 		}
@@ -303,7 +312,8 @@ type w2Shape struct {
 	Dim    int
 	Face   int
 	Step   int
-	Inv    bool // complement of the pieces: contains the rest of its face and the other faces
+	Inv    bool   // complement of the pieces: contains the rest of its face and the other faces
+	Kind   string // the concrete Go type chosen by the model
 	Pcs    []w2Piece
 	Depths []int
 	Loops  [][][2]int
@@ -382,27 +392,6 @@ type w2Obj struct {
 	vset    map[s2.Point]bool
 	toReal  []int // model edge -> real edge id
 	toModel []int // real edge id -> model edge
-}
-
-var w2SingleKinds = []string{"Loop", "Polygon", "LaxPolygon", "LaxLoop"}
-var w2MultiKinds = []string{"Polygon", "LaxPolygon"}
-
-// w2Kind picks the concrete Go type of shape k from the case's kind variant.
-func w2Kind(c *w2Case, k int) string {
-	sh := &c.Shapes[k]
-	switch sh.Dim {
-	case 0:
-		return "PointVector"
-	case 1:
-		if (c.KV+k)%2 == 0 {
-			return "Polyline"
-		}
-		return "LaxPolyline"
-	}
-	if len(sh.Loops) == 1 {
-		return w2SingleKinds[(c.KV+k)%4]
-	}
-	return w2MultiKinds[(c.KV+k)%2]
 }
 
 // w2Realise builds the real shape.  Returns nil (after recording a failure) when the real
@@ -494,6 +483,18 @@ func w2Realise(o *Out, c *w2Case, k int, kind string) *w2Obj {
 		return nil
 	}
 	return ob
+}
+
+// w2BruteForce is the code's own brute force over all edges of the shape (crossing parity
+// from the shape's reference point).  It is undefined (ok = false) when the query point is
+// exactly antipodal to the reference point: the segment between them is not an S2 edge.
+func w2BruteForce(shape s2.Shape, p s2.Point) (val, ok bool) {
+	if shape.Dimension() == 2 && shape.NumEdges() > 0 {
+		if ref := shape.ReferencePoint().Point; ref.Vector == p.Vector.Mul(-1) {
+			return false, false
+		}
+	}
+	return s2.VerifContainsBruteForce(shape, p), true
 }
 
 // ---- index cells -------------------------------------------------------------------
@@ -609,7 +610,7 @@ func w2CheckIndex(o *Out, c *w2Case, tag string, idx *s2.ShapeIndex, objs []*w2O
 				}
 			}
 			if sh.Dim == 2 {
-				if bf := s2.VerifContainsBruteForce(ob.shape, center); bf != got {
+				if bf, ok := w2BruteForce(ob.shape, center); ok && bf != got {
 					o.Fail("w2/containsCenter-vs-bruteforce/"+tag+"/"+ob.kind, "index cell %v: containsCenter=%v for shape %d (%s) but brute force over all edges says %v (model: %v predicted=%v): %s",
 						ic.ID, got, id, ob.kind, bf, want, predicted, desc())
 				}
@@ -767,7 +768,7 @@ func w2CheckContainsQueries(o *Out, c *w2Case, idx *s2.ShapeIndex, objs []*w2Obj
 				}
 				// index path = brute force over all edges (semi-open is the brute-force rule)
 				if w2Models[m] == s2.VertexModelSemiOpen {
-					if bf := s2.VerifContainsBruteForce(ob.shape, p); bf != got {
+					if bf, ok := w2BruteForce(ob.shape, p); ok && bf != got {
 						o.Fail("w2/ShapeContains-vs-bruteforce/"+ob.kind, "semi-open ShapeContains(shape %d %s, %s on face %d) = %v but brute force over all edges = %v: %s",
 							id, ob.kind, what, face, got, bf, desc())
 					}
@@ -1011,7 +1012,7 @@ func opC06Scene(raw json.RawMessage, o *Out) {
 	idx := s2.NewShapeIndex()
 	nedges := 0
 	for k := range c.Shapes {
-		ob := w2Realise(o, &c, k, w2Kind(&c, k))
+		ob := w2Realise(o, &c, k, c.Shapes[k].Kind)
 		if ob == nil {
 			return
 		}
@@ -1025,6 +1026,18 @@ func opC06Scene(raw json.RawMessage, o *Out) {
 			faces = append(faces, ob.sh.Face)
 		}
 	}
+	// The index computes the containment of its first focus point (the start of the cell-id
+	// curve, a cube corner) by brute force from each shape's reference point; a lax shape
+	// whose reference vertex is exactly antipodal to that corner is outside the domain.
+	start := w2Vertex(0, c.G, 0, 0)
+	for _, ob := range objs {
+		if ob.sh.Dim == 2 && ob.shape.NumEdges() > 0 && ob.shape.ReferencePoint().Point.Vector == start.Vector.Mul(-1) {
+			o.Count("scenes_skipped_reference_antipodal_to_curve_start")
+			if os.Getenv("W2_NOSKIP") == "" {
+				return
+			}
+		}
+	}
 	idx.Build()
 	o.nontrivial = nedges > 27 || len(objs) > 1
 	o.sample = map[string]any{"op": c.Op, "g": c.G, "face": c.Face, "kv": c.KV, "scene": w2Describe(&c), "edges": nedges}
@@ -1033,5 +1046,211 @@ func opC06Scene(raw json.RawMessage, o *Out) {
 	w2CheckCrossings(o, &c, idx, objs, faces)
 	for _, ob := range objs {
 		w2CheckCells(o, &c, ob, "scene")
+	}
+}
+
+// ===================================================================================
+// C06 (iii): lattice scenes (Gen_InLoop.tla with Op = "c06lattice") on the unit embedding.
+// Edges between lattice points span several cube faces; the index answers must equal the
+// code's own brute force always, and the model's exact answers where they are robust.
+// ===================================================================================
+
+func opC06Lattice(raw json.RawMessage, o *Out) {
+	var c struct {
+		N     int
+		Verts []emb.P3
+		Pts   []emb.P3
+		Want  []string
+		Qs    [][2]emb.P3
+		Cross [][]string
+	}
+	if err := json.Unmarshal(raw, &c); err != nil {
+		panic(err)
+	}
+	n := len(c.Verts)
+	pts := make([]s2.Point, n)
+	isVertex := map[s2.Point]bool{}
+	for k, v := range c.Verts {
+		pts[k] = emb.Unit(v)
+		isVertex[pts[k]] = true
+	}
+	cp := func() []s2.Point { return append([]s2.Point(nil), pts...) }
+	loop := s2.LoopFromPoints(cp())
+	laxp := s2.LaxPolygonFromPoints([][]s2.Point{pts})
+	pl := s2.Polyline(cp())
+	pv := s2.PointVector(cp())
+	rev := s2.LoopFromPoints(w2Rev(pts))
+	shapes := []s2.Shape{loop, laxp, &pl, &pv, rev}
+	names := []string{"Loop", "LaxPolygon", "Polyline", "PointVector", "ReversedLoop"}
+	idx := s2.NewShapeIndex()
+	for _, sh := range shapes {
+		idx.Add(sh)
+	}
+	idx.Build()
+	desc := fmt.Sprintf("lattice loop %v [unit]", c.Verts)
+	o.nontrivial = true
+	o.sample = map[string]any{"op": "c06lattice", "verts": c.Verts, "queries": len(c.Qs)}
+
+	// (a) index structure
+	x := w2ReadIndex(idx)
+	o.CountN("lattice_index_cells", len(x.cells))
+	for k := 1; k < len(x.cells); k++ {
+		if !(w2RangeMax(x.cells[k-1].ID) < w2RangeMin(x.cells[k].ID)) {
+			o.Fail("c06lattice/index-sorted-disjoint", "index cells %v, %v: %s", x.cells[k-1].ID, x.cells[k].ID, desc)
+		}
+	}
+	for k, ic := range x.cells {
+		center := ic.ID.Point()
+		for id, sh := range shapes {
+			cs := x.clip[k][int32(id)]
+			got := cs != nil && cs.ContainsCenter
+			want := false
+			if sh.Dimension() == 2 {
+				bf, ok := w2BruteForce(sh, center)
+				if !ok {
+					continue
+				}
+				want = bf
+			}
+			if got != want {
+				o.Fail("c06lattice/containsCenter-vs-bruteforce/"+names[id], "index cell %v: containsCenter=%v for %s, brute force over all edges %v: %s", ic.ID, got, names[id], want, desc)
+			}
+		}
+	}
+	for id, sh := range shapes {
+		for e := 0; e < sh.NumEdges(); e++ {
+			ed := sh.Edge(e)
+			mid := s2.Point{Vector: ed.V0.Add(ed.V1.Vector).Normalize()}
+			seen := false
+			for wn, w := range []s2.Point{ed.V0, ed.V1, mid} {
+				if wn == 2 && ed.V0 == ed.V1 {
+					continue
+				}
+				leaf := s2.CellFromPoint(w).ID()
+				cont, _, _ := x.locate(leaf)
+				o.Count("lattice_edge_in_cell_checked")
+				if cont < 0 {
+					o.Fail("c06lattice/edge-missing-from-cell/"+names[id], "no index cell contains the leaf cell of point %d of edge %d of %s: %s", wn, e, names[id], desc)
+					continue
+				}
+				if x.eset[cont][int32(id)][e] {
+					seen = true
+				} else if wn < 2 {
+					// an endpoint lies on the edge exactly: the cell that contains it meets the edge
+					o.Fail("c06lattice/edge-missing-from-cell/"+names[id], "edge %d of %s is not listed in index cell %v which contains its endpoint %d: %s", e, names[id], x.cells[cont].ID, wn, desc)
+				}
+			}
+			if !seen {
+				o.Fail("c06lattice/edge-in-no-cell/"+names[id], "edge %d of %s is in none of the cells of its endpoints/midpoint: %s", e, names[id], desc)
+			}
+		}
+	}
+
+	// (b) ContainsPointQuery
+	queries := make([]*s2.ContainsPointQuery, 3)
+	for m := range w2Models {
+		queries[m] = s2.NewContainsPointQuery(idx, w2Models[m])
+	}
+	for k, lp := range c.Pts {
+		p := emb.Unit(lp)
+		what := fmt.Sprintf("lattice point %v, %s", lp, desc)
+		for m, q := range queries {
+			model := w2Models[m]
+			inLoop := false
+			for id, sh := range shapes {
+				got := q.ShapeContains(sh, p)
+				if id == 0 {
+					inLoop = got
+				}
+				switch {
+				case sh.Dimension() < 2:
+					if want := model == s2.VertexModelClosed && isVertex[p]; got != want {
+						o.Fail("c06lattice/ShapeContains/"+w2ModelNames[m]+"/"+names[id], "ShapeContains = %v, model %v at %s", got, want, what)
+					}
+				case isVertex[p] && model != s2.VertexModelSemiOpen:
+					if want := model == s2.VertexModelClosed; got != want {
+						o.Fail("c06lattice/ShapeContains/"+w2ModelNames[m]+"/"+names[id], "ShapeContains = %v at a vertex, model %v at %s", got, want, what)
+					}
+				default:
+					// semi-open rule = brute force over all edges; open/closed coincide with it off the vertices
+					if bf, ok := w2BruteForce(sh, p); ok && bf != got {
+						o.Fail("c06lattice/ShapeContains-vs-bruteforce/"+names[id], "%s ShapeContains = %v, brute force over all edges %v at %s", w2ModelNames[m], got, bf, what)
+					}
+					if id <= 1 && c.Want[k] != "U" {
+						o.Count("lattice_contains_predicted")
+						if tf(got) != c.Want[k] {
+							o.Fail("c06lattice/ShapeContains-vs-model/"+names[id], "%s ShapeContains = %v, model %s at %s", w2ModelNames[m], got, c.Want[k], what)
+						}
+					}
+				}
+			}
+			if model == s2.VertexModelSemiOpen {
+				if r := q.ShapeContains(rev, p); r == inLoop {
+					o.Fail("c06lattice/loop-and-reverse", "loop and reversed loop both answer %v at %s", r, what)
+				}
+			}
+		}
+	}
+
+	// (c) CrossingEdgeQuery
+	ceq := s2.NewCrossingEdgeQuery(idx)
+	types := []s2.CrossingType{s2.CrossingTypeInterior, s2.CrossingTypeAll}
+	tnames := []string{"interior", "all"}
+	for qn, qp := range c.Qs {
+		a, b := emb.Unit(qp[0]), emb.Unit(qp[1])
+		what := fmt.Sprintf("query %v-%v, %s", qp[0], qp[1], desc)
+		for tn, ty := range types {
+			em := ceq.CrossingsEdgeMap(a, b, ty)
+			for id, sh := range shapes {
+				got := ceq.Crossings(a, b, sh, ty)
+				gotSet := map[int]bool{}
+				for _, e := range got {
+					gotSet[e] = true
+				}
+				bf := map[int]bool{}
+				for e := 0; e < sh.NumEdges(); e++ {
+					ed := sh.Edge(e)
+					sg := s2.CrossingSign(a, b, ed.V0, ed.V1)
+					if sg == s2.Cross || (ty == s2.CrossingTypeAll && sg == s2.MaybeCross) {
+						bf[e] = true
+					}
+				}
+				o.Count("lattice_crossings_vs_bruteforce")
+				// the edge map is always computed through the index (several shapes)
+				me := em[sh]
+				meSet := map[int]bool{}
+				for _, e := range me {
+					meSet[e] = true
+				}
+				for name, set := range map[string]map[int]bool{"Crossings": gotSet, "CrossingsEdgeMap": meSet} {
+					same := len(set) == len(bf)
+					for e := range bf {
+						if !set[e] {
+							same = false
+						}
+					}
+					if !same {
+						o.Fail("c06lattice/"+name+"-vs-bruteforce/"+tnames[tn]+"/"+names[id], "%s(%s) = %v but CrossingSign over all edges gives %v for %s: %s", name, tnames[tn], w2Keys(set), w2Keys(bf), names[id], what)
+					}
+				}
+				if !w2SortedUnique(me) || !w2SortedUnique(got) {
+					o.Fail("c06lattice/Crossings-order/"+tnames[tn], "results not sorted/unique: %v %v: %s", got, me, what)
+				}
+				// the model: edge k of the loop is edge k-1 of Loop / LaxPolygon, and of the polyline
+				if id <= 2 {
+					for e := 0; e < sh.NumEdges(); e++ {
+						w := c.Cross[qn][e]
+						if w == "U" {
+							continue
+						}
+						want := w == "CROSS" || (ty == s2.CrossingTypeAll && w == "MAYBE")
+						o.Count("lattice_crossings_predicted")
+						if meSet[e] != want {
+							o.Fail("c06lattice/CrossingsEdgeMap-vs-model/"+tnames[tn]+"/"+names[id], "edge %d of %s: in result = %v, exact model %s: %s", e, names[id], meSet[e], w, what)
+						}
+					}
+				}
+			}
+		}
 	}
 }
